@@ -39,7 +39,7 @@ NoDup(c) == Cardinality(ToSet(c.nondust)) = Len(c.nondust) /\ Cardinality(ToSet(
 TraceInit ==
   /\ l = 1 /\ nodeOf = <<>> /\ saved = <<>> /\ everRAA = <<>> /\ projB = <<>>
   /\ fw = [adds |-> {}, downFul |-> {}, upClaimed |-> {}, settledNow |-> {}, base0 |-> <<>>, pol |-> <<>>,
-           shut |-> {}, closeFee |-> <<>>, newInfl |-> {}, crashed |-> {}, liveAtCrash |-> {}, snapKnows |-> <<>>, needSent |-> {}, owed |-> {}, settled |-> FALSE, pays |-> {}, claimedEv |-> {}, sentEv |-> {}, failEv |-> {}, lastMgr |-> <<>>, cuid |-> <<>>, failedNow |-> {}, ruid |-> <<>>, claimable |-> <<>>, mustClaim |-> {}, mustAcc |-> {}, gs |-> <<>>, reloaded |-> {}, dirty |-> {}, evhead |-> <<>>]
+           shut |-> {}, closeFee |-> <<>>, newInfl |-> {}, crashed |-> {}, liveAtCrash |-> {}, snapKnows |-> <<>>, needSent |-> {}, owed |-> {}, settled |-> FALSE, pays |-> {}, claimedEv |-> {}, sentEv |-> {}, failEv |-> {}, lastMgr |-> <<>>, cuid |-> <<>>, failedNow |-> {}, ruid |-> <<>>, claimable |-> <<>>, mustClaim |-> {}, mustAcc |-> {}, gs |-> <<>>, reloaded |-> {}, dirty |-> {}, evhead |-> <<>>, dustCfg |-> FALSE]
   /\ par = <<>> /\ cnt = <<>> /\ hs = <<>> /\ fees = <<>> /\ feeBase = <<>> /\ base = <<>>
   /\ link = <<>> /\ redo = <<>> /\ lastCS = <<>> /\ order = <<>> /\ pts = <<>> /\ mon = <<>>
   /\ ownExp = <<>>
@@ -72,7 +72,7 @@ TOpen ==
         /\ saved' = <<>> /\ projB' = <<>>
         /\ fw' = [adds |-> {}, downFul |-> {}, upClaimed |-> {}, settledNow |-> {},
                    base0 |-> [e \in E |-> IF e[2] = 1 THEN cs[ch(e[1])].bal_a_msat ELSE cs[ch(e[1])].bal_b_msat],
-                   pol |-> R.policy, shut |-> {}, closeFee |-> [c \in C |-> 0], newInfl |-> {}, crashed |-> {}, liveAtCrash |-> {}, snapKnows |-> <<>>, needSent |-> {}, owed |-> {}, settled |-> FALSE, pays |-> {}, claimedEv |-> {}, sentEv |-> {}, failEv |-> {}, lastMgr |-> <<>>, cuid |-> <<>>, failedNow |-> {}, ruid |-> <<>>, claimable |-> <<>>, mustClaim |-> {}, mustAcc |-> {}, gs |-> <<>>, reloaded |-> {}, dirty |-> {}, evhead |-> <<>>]
+                   pol |-> R.policy, shut |-> {}, closeFee |-> [c \in C |-> 0], newInfl |-> {}, crashed |-> {}, liveAtCrash |-> {}, snapKnows |-> <<>>, needSent |-> {}, owed |-> {}, settled |-> FALSE, pays |-> {}, claimedEv |-> {}, sentEv |-> {}, failEv |-> {}, lastMgr |-> <<>>, cuid |-> <<>>, failedNow |-> {}, ruid |-> <<>>, claimable |-> <<>>, mustClaim |-> {}, mustAcc |-> {}, gs |-> <<>>, reloaded |-> {}, dirty |-> {}, evhead |-> <<>>, dustCfg |-> FALSE]
 
 \* not part of the commitment protocol; `warning` / `disconnect_peer` ask the transport to drop the
 \* peer (the harness then disconnects, as PeerManager would) -- an `error` is never acceptable
@@ -102,6 +102,8 @@ GF(p) == IF fw.crashed = {} THEN G1(p) ELSE G10(p)
 \* (the forwarding property holds "across ... restarts at any point" too: end-to-end loss after a crash is both's)
 G210(p) == ("C02" \in Relax) \/ ("C10" \in Relax) \/ p
 GE(p) == IF fw.crashed = {} THEN G2(p) ELSE G210(p)
+MinDustMsat(c) == 1000 * (IF par[c].dust[1] <= par[c].dust[2] THEN par[c].dust[1] ELSE par[c].dust[2])
+DustPending(e) == FoldSet(LAMBDA h, a : a + h.amt, 0, {h \in hs[e] : h.rem = -1 /\ h.amt < MinDustMsat(e[1])})
 TMsg ==
   /\ IsEvent("msg")
   /\ UNCHANGED <<nodeOf, saved, projB>>
@@ -116,6 +118,14 @@ TMsg ==
   /\ (R.chan # 0 /\ R.kind = "update_add_htlc" /\ ~Closed(EP(R.chan, R.from))) =>
         G1(R.chan \notin fw.shut \/ Has(EP(R.chan, R.from), "out", R.id))
   /\ (R.chan # 0 /\ R.kind = "update_add_htlc") => G2(ForwardTerms(R.from, R.amt, R.cltv, R.hash))
+  \* C02: HTLCs too small to have an output on either commitment are forfeited to fees if the channel closes; the node keeps
+  \* their total within its configured dust-exposure limit: it does not OFFER a further one (its own payment or a forward)
+  \* that takes the total over the limit.  (Under-approximation that cannot misjudge: only HTLCs below both sides' plain
+  \* dust limits -- dust whatever the feerate and channel type -- that are not yet being removed; the weakest limit the
+  \* node had so far in the run.)
+  /\ (R.chan # 0 /\ R.kind = "update_add_htlc" /\ ~Closed(EP(R.chan, R.from)) /\ ~Has(EP(R.chan, R.from), "out", R.id)
+        /\ R.dustcap > 0 /\ R.amt < MinDustMsat(R.chan)) =>
+        G2(DustPending(EP(R.chan, R.from)) + R.amt <= R.dustcap)
   \* C09: a forward leaves only after the monitor update that made the upstream HTLC irrevocable is durable
   /\ (R.chan # 0 /\ R.kind = "update_add_htlc" /\ ~Closed(EP(R.chan, R.from)) /\ ~Has(EP(R.chan, R.from), "out", R.id)) =>
         \A u \in UpAdds(R.from, R.hash) :
@@ -254,7 +264,9 @@ TSend ==
   \*  this HTLC alone -- any further send, by either side, ends it for the earlier ones)
   /\ fw' = IF R.result = "ok"
             THEN [fw EXCEPT !.pays = @ \cup {[hash |-> R.hash, payer |-> R.node, amt |-> R.amt, snap |-> R.snap]},
-                            !.mustAcc = IF R.direct /\ R.usable /\ R.chan \in DOMAIN nodeOf /\ R.chan \notin fw.shut /\ Quiet(R.chan)
+                            \* (a peer whose user has set a fixed dust-exposure limit of its own may refuse small HTLCs the
+                            \*  sender's limits cannot know about)
+                            !.mustAcc = IF R.direct /\ R.usable /\ R.chan \in DOMAIN nodeOf /\ R.chan \notin fw.shut /\ Quiet(R.chan) /\ ~fw.dustCfg
                                         THEN {<<R.chan, R.hash>>} ELSE {}]
             ELSE [fw EXCEPT !.mustAcc = {}]
   /\ G1(R.usable => /\ (R.first_amt >= R.min /\ R.first_amt <= R.limit) => R.result = "ok"
@@ -492,7 +504,7 @@ TOther ==
             \* (the user changes its forwarding policy: for a while HTLCs paying the old or the new terms are forwarded --
             \*  the node is held to the weaker of the two from here on)
             ELSE IF Rec[l].ev = "config"
-                 THEN [fw EXCEPT !.mustAcc = {},
+                 THEN [fw EXCEPT !.mustAcc = {}, !.dustCfg = @ \/ (Rec[l].ok /\ Rec[l].max_dust > 0),
                                  !.pol = [k \in DOMAIN @ |-> IF k = Rec[l].node + 1 /\ Rec[l].ok
                                                               THEN [cltv_delta |-> IF Rec[l].cltv_delta < @[k].cltv_delta THEN Rec[l].cltv_delta ELSE @[k].cltv_delta,
                                                                     fee_base |-> IF Rec[l].fee_base < @[k].fee_base THEN Rec[l].fee_base ELSE @[k].fee_base,
